@@ -18,6 +18,8 @@
 #include <bluetoe/l2cap_signaling_channel.hpp>
 #include <bluetoe/link_state.hpp>
 
+#include <functional>
+
 #include "../sim/sim.hpp"
 
 namespace {
@@ -92,7 +94,7 @@ struct link_layer_stub : bluetoe::details::l2cap< link_layer_stub, bluetoe::deta
     }
 };
 
-enum { op_frame, op_sig_command, op_sig_response, op_queue_request, op_poll, op_buffer, op_count };
+enum { op_frame, op_sig_command, op_sig_response, op_queue_request, op_poll, op_buffer, op_cycles, op_count };
 
 struct l2cap_harness : sim::Harness
 {
@@ -107,7 +109,7 @@ struct l2cap_harness : sim::Harness
     std::vector< std::string > real_components() const override { return { "bluetoe/l2cap.hpp (handle_l2cap_input, transmit_pending_l2cap_output)", "bluetoe/link_layer/include/bluetoe/l2cap_signaling_channel.hpp" }; }
     std::vector< std::string > stub_components() const override { return { "link layer (buffer allocation / commit, exactly sized heap blocks)", "ATT and SM channels (recording channels with configurable answers)" }; }
     std::uint64_t default_runs( const std::string&, bool thorough ) const override { return thorough ? 3000000 : 100000; }
-    std::vector< std::string > op_names() const override { return { "frame", "sig_command", "sig_response", "queue_request", "poll", "buffer" }; }
+    std::vector< std::string > op_names() const override { return { "frame", "sig_command", "sig_response", "queue_request", "poll", "buffer", "cycles" }; }
 
     sim::Plan generate( std::uint64_t seed, const std::string& property, bool thorough ) const override
     {
@@ -145,8 +147,11 @@ struct l2cap_harness : sim::Harness
                 p.ops.push_back( sim::Op( op_queue_request, { rng.range( 6, 3200 ), rng.range( 6, 3200 ), rng.range( 0, 499 ), rng.range( 10, 3200 ) } ) );
             else if ( x < 92 )
                 p.ops.push_back( sim::Op( op_poll, {} ) );
-            else
+            else if ( x < 97 )
                 p.ops.push_back( sim::Op( op_buffer, { rng.range( 0, 1 ) } ) );
+            else
+                // a0 complete request / poll / matching response rounds in a row: long lived connections (the identifier is one byte)
+                p.ops.push_back( sim::Op( op_cycles, { rng.chance( 70 ) ? rng.range( 1, 8 ) : rng.range( 100, 600 ) } ) );
         }
         return p;
     }
@@ -276,12 +281,19 @@ struct l2cap_harness : sim::Harness
             return true;
         };
 
-        long idx = -1;
-        for ( const auto& op : plan.ops )
+        std::function< void( const sim::Op&, long ) > do_op = [&]( const sim::Op& op, long idx )
         {
-            ++idx;
             switch ( ( ( op.kind % op_count ) + op_count ) % op_count )
             {
+            case op_cycles: {
+                const std::int64_t n = std::max< std::int64_t >( 1, std::min< std::int64_t >( op.arg( 0 ), 700 ) );
+                for ( std::int64_t k = 0; k != n && res.violations.empty(); ++k )
+                {
+                    do_op( sim::Op( op_queue_request, { 6 + k % 100, 200, 0, 100 } ), idx );
+                    do_op( sim::Op( op_poll, {} ), idx );
+                    do_op( sim::Op( op_sig_response, { 0, k & 1, 0 } ), idx );
+                }
+                break; }
             case op_frame: {
                 int cid = static_cast< int >( op.arg( 0 ) & 0xffff );
                 bytes payload = op.bytes;
@@ -361,6 +373,12 @@ struct l2cap_harness : sim::Harness
                 if ( ll->no_buffer ) res.fault( "no_transmit_buffer" );
                 break;
             }
+        };
+        long idx = -1;
+        for ( const auto& op : plan.ops )
+        {
+            ++idx;
+            do_op( op, idx );
         }
         if ( requests_sent ) res.probe( "update_requests_sent", requests_sent );
         if ( rejects ) res.probe( "command_rejects", rejects );
@@ -376,6 +394,7 @@ struct l2cap_harness : sim::Harness
         std::vector< sim::Op > r;
         const sim::Op& op = plan.ops[ i ];
         if ( !op.bytes.empty() ) { sim::Op c = op; c.bytes.resize( op.bytes.size() / 2 ); r.push_back( c ); }
+        if ( op.kind == op_cycles && op.arg( 0 ) > 1 ) { sim::Op c = op; c.a[ 0 ] = op.arg( 0 ) / 2; r.push_back( c ); c.a[ 0 ] = op.arg( 0 ) - 1; r.push_back( c ); return r; }
         for ( std::size_t a = 0; a != op.a.size(); ++a )
             if ( op.a[ a ] != 0 && !( op.kind == op_frame && a == 0 ) ) { sim::Op c = op; c.a[ a ] = 0; r.push_back( c ); }
         return r;
